@@ -410,6 +410,64 @@ func (e *Engine) Discharge() {
 		}()
 	}
 	wg.Wait()
+	e.retryUnknown()
+}
+
+// retryUnknown: a timeout is not a refutation. Obligations that came back
+// unknown (a loaded machine, an unlucky solver run) are solved once more,
+// few at a time and with a much larger budget, before anything is reported;
+// obligations with a definite counterexample on some path are left alone.
+func (e *Engine) retryUnknown() {
+	hasSat := map[string]bool{}
+	for _, o := range e.Obls {
+		if o.Result.Status == "sat" && o.Kind != "cover" {
+			hasSat[o.Name] = true
+		}
+	}
+	var todo []*Obligation
+	for _, o := range e.Obls {
+		if o.Kind != "cover" && o.Result.Status == "unknown" && !hasSat[o.Name] && o.Query != "" {
+			todo = append(todo, o)
+		}
+	}
+	if len(todo) == 0 {
+		return
+	}
+	var mu sync.Mutex
+	stillFailed := map[string]int{}
+	queue := make(chan *Obligation, len(todo))
+	for _, o := range todo {
+		queue <- o
+	}
+	close(queue)
+	var wg sync.WaitGroup
+	for w := 0; w < 4; w++ {
+		wg.Add(1)
+		go func() {
+			defer wg.Done()
+			for o := range queue {
+				mu.Lock()
+				nf := stillFailed[o.Name]
+				mu.Unlock()
+				if nf >= 2 {
+					continue
+				}
+				first := o.Result.Seconds
+				r := Solve(o.Query, e.TimeoutMs*6, "")
+				r.Seconds += first
+				if r.Status == "unknown" && o.Result.Backend == "skipped" {
+					r.Backend = "all"
+				}
+				o.Result = r
+				if r.Status != "unsat" {
+					mu.Lock()
+					stillFailed[o.Name]++
+					mu.Unlock()
+				}
+			}
+		}()
+	}
+	wg.Wait()
 }
 
 // Groups merges per-path obligations that share a name.
